@@ -655,8 +655,8 @@ func c19GenScript(r *rand.Rand, name string, nblocks int) *c19Script {
 			case x < 4:
 				a.Kind = "allege"
 				a.Mal = anyone()
-				if target >= 0 && r.Intn(3) == 0 {
-					a.Mal = target
+				if target >= 0 && r.Intn(3) != 0 {
+					a.Mal = target // keep at the same accused: also after its release (repeat offence)
 				} else if r.Intn(2) == 0 {
 					target = a.Mal
 				}
@@ -858,6 +858,24 @@ func c19Directed() []*c19Script {
 			c19Block{DT: 15, Acts: append(votes(2, []int{4, 1, 2}, nil), c19Act{Kind: "allege", Who: 1, Mal: 0, Req: 3})},
 			c19Block{DT: 15, Acts: votes(2, []int{0, 3}, nil)})
 		sc.Blocks = append(sc.Blocks, idle(3)...)
+		out = append(out, sc)
+	}
+	// repeat offence: conviction, release after the release time, re-election, second conviction;
+	// then the convicted validator tries everything; quiet blocks
+	{
+		c := base
+		sc := &c19Script{Name: "repeat-offender", NVals: 4, Cfg: c}
+		sc.Blocks = idle(5)
+		sc.Blocks = append(sc.Blocks,
+			c19Block{DT: 15, Acts: append([]c19Act{{Kind: "allege", Who: 0, Mal: 3, Req: 0}}, votes(0, []int{0, 1}, nil)...)},
+			c19Block{DT: 15},
+			c19Block{DT: 86400 + 1, Acts: []c19Act{{Kind: "release", Who: 3}}},
+			c19Block{DT: 15, Acts: []c19Act{{Kind: "stake", Who: 3, Amount: 1000}}},
+			c19Block{DT: 15},
+			c19Block{DT: 15, Acts: append([]c19Act{{Kind: "allege", Who: 3, Mal: 0, Req: 1}, {Kind: "allege", Who: 0, Mal: 3, Req: 2}}, votes(2, []int{0, 1, 2}, nil)...)},
+			c19Block{DT: 15, Acts: []c19Act{{Kind: "stake", Who: 3, Amount: 500}, {Kind: "unstake", Who: 3, Amount: 500}, {Kind: "withdraw", Who: 3, Amount: 1}, {Kind: "vote", Who: 3, Req: 1, Choice: 1}, {Kind: "allege", Who: 3, Mal: 1, Req: 3}, {Kind: "release", Who: 3}}},
+			c19Block{DT: 15, Acts: []c19Act{{Kind: "unstake", Who: 3, Amount: 500}, {Kind: "vote", Who: 3, Req: 1, Choice: 2}}})
+		sc.Blocks = append(sc.Blocks, idle(7)...)
 		out = append(out, sc)
 	}
 	// accused is not a validator
